@@ -268,6 +268,13 @@ func (p *Parser) Documents() []*Document {
 // outputDocument returns the output objects generated by the specified
 // document.
 func (p *Parser) outputDocument(doc *Document) ([]any, error) {
+	// Process rewrites the document it is called on. Evaluate a copy so
+	// that producing output leaves the merged documents untouched.
+	doc, err := doc.Clone("output")
+	if err != nil {
+		return nil, err
+	}
+
 	docs, err := doc.Process(p.docs)
 	if err != nil {
 		return nil, err
